@@ -72,12 +72,45 @@ def run(tier):
     # a dealer whose contribution to the key is the identity (zero constant term, forged proof of knowledge)
     dealers += [{"kind": "dealercheat", "proto": pr, "n": 3, "t": 1, "byz": b, "alt": "zero", "sched": vlib.seed() + 400 + i}
                 for i, (pr, b) in enumerate((pr, b) for pr in ("frost-keygen", "taproot-keygen", "cmp-keygen") for b in ("a", "b", "c"))]
+    # DoernerAlg.tla: the algebra of two-party signing over Z_5 for every choice of shares, nonces, pad, multiplication
+    # shares, digest and x(R): honest sessions complete, the two consistency checks hold exactly for consistent inputs, and
+    # under every state-level deviation of one side the other never returns an invalid signature.  Its deviation
+    # catalogue is run on the real protocol (altered key material / round state of the deviating side).
+    dinv = ["TypeOK", "HonestCompletes", "ChecksHold", "KeyCheckSound", "OtCheckSound", "ChecksImplyValid", "OutputValid", "Agreement"]
+    dconst = {"Q": 5, "SkVals": {0, 1, 3}, "KVals": {1, 2, 4}, "PhiVals": {0, 2}, "TVals": {0, 3}, "MVals": {0, 1, 3}, "RVals": {1, 2},
+              "Kinds": {"share", "public", "ot", "kinv"}, "Offs": {1, 3}, "MaskDiffs": {0, 1}, "VerifyFinal": True}
+    if not quick:
+        dconst.update({"SkVals": {0, 1, 2, 3, 4}, "KVals": {1, 2, 3, 4}, "MaskDiffs": {0, 1, 3}, "MVals": {0, 1}, "PhiVals": {0, 2, 3}})
+    r = vlib.tlc(wd, "DoernerAlg", vlib.cfg(dconst, init="Init", next_="Next", invariants=dinv), timeout=3000)
+    vlib.tlc_must_pass(r, "DoernerAlg.tla")
+    dstates, dtrans = r["distinct"], r["generated"]
+    dcat = (vlib.printed(r["out"], "CAT") or [[]])[0]
+    if not dcat:
+        raise vlib.Inconclusive("DoernerAlg.tla did not emit its deviation catalogue")
+    # control: a Receiver that returns what it assembled without verifying it
+    dctl = dict(dconst, SkVals={1, 3}, KVals={1, 2}, VerifyFinal=False, MaskDiffs={1})
+    r = vlib.tlc(wd, "DoernerAlg", vlib.cfg(dctl, init="Init", next_="Next", invariants=["OutputValid"]), timeout=3000)
+    if r["violated"] != "OutputValid":
+        raise vlib.Inconclusive("DoernerAlg.tla with VerifyFinal=FALSE should violate OutputValid (got %s)" % r["violated"])
+    rep.notes.append("DoernerAlg.tla over Z_5: %d distinct states; honest sessions complete, Gamma1 / Gamma2 hold exactly for consistent inputs, no invalid signature is returned by the honest side under share / public / ot / kinv deviations; control VerifyFinal=FALSE violates OutputValid" % dstates)
+    seen = set()
+    for c in sorted(dcat, key=lambda c: (c["rule"], c["who"], c["mul"])):
+        if c["rule"] == "ot" and c["mul"] != 3:
+            continue   # model only: the real deviation (the correlation of another key generation) breaks all three multiplications
+        key = (c["rule"], c["who"])
+        if key in seen:
+            continue
+        seen.add(key)
+        for k in range(1 if quick else 3):
+            dealers.append({"kind": "doernercheat", "proto": "doerner-sign", "n": 2, "t": 1, "byz": {"A": "b", "B": "a"}[c["who"]], "rule": c["rule"],
+                            "sched": vlib.seed() * 11 + 600 + len(dealers)})
     st = adv.run_family(rep, wd, plan(quick), PROP, vlib.seed(), {"C03"}, shards=14, extra_scen=dealers)
+    st["states"] += dstates; st["transitions"] += dtrans
     rep.cov.update({"distinct_nontrivial": st["distinct"], "states": st["states"], "transitions": st["transitions"],
                     "traces_validated_against_impl": st["traces"], "trace_lines": st["lines"], "catalogue_cases": st["catalogue"],
                     "scenarios_applicable": st["applicable"], "scenarios_reached": st["reached"],
                     "rule": "FaultCat.tla (TLC) enumerates message slot x field of the decoded real message x alteration x cheater x recipients; each case is run on the real protocol with one real party whose emitted message is altered at CBOR level; non-trivial = the altered message was delivered to an honest party; every honest API call is validated against Handler.tla (invariant WrongNeverAccepted: no party is done with a result the independent verifier rejects) and key material of honest finishers must be mutually consistent"})
     if st["reached"] < 2:
         raise vlib.Inconclusive("the fault scenarios did not reach the code under test")
-    rep.assumptions += ["one deviating participant; deviations are alterations of real messages (field level), plus two state-level dealer strategies (wrong degree, share of another evaluation point)"]
+    rep.assumptions += ["one deviating participant; deviations are alterations of real messages (field level), plus state-level strategies (dealer: wrong degree, share of another evaluation point, malformed committed value, zero constant, wrong share to one recipient; Doerner signer: other key share / public key / OT correlation / inverse nonce)"]
     return rep.finish()
